@@ -167,6 +167,21 @@ func runProfile(cfg runCfg, prof string) error {
 			qo.recurAlias = false
 		}
 		q, vars, doc := env.genBoundedQuery(r, qo, 400)
+		if prof == "c16" && doc != nil && r.Intn(3) == 0 && !strings.Contains(q, "...") {
+			// the namespace field once more under the same response key, through a fragment on Mutation, selecting another
+			// mutation: both selections are one field, and every mutation under it is to be delivered once
+			extra := []string{"reset", "tag(name: \"zz\") { id }", "reset tag(name: \"zz\") { id }"}[r.Intn(3)]
+			if i := strings.Index(q, "{"); i >= 0 {
+				q2 := q[:i+1] + " ...ZZNs" + q[i+1:] + "\nfragment ZZNs on Mutation { ops { " + extra + " } }"
+				if r.Intn(2) == 0 {
+					q2 = q[:i+1] + " ops { " + extra + " }" + q[i+1:]
+				}
+				if d2, gerr := loadQuery(env.gw.es.MergedSchema, q2); gerr == nil {
+					q, doc = q2, d2
+					sum.Features["namespace_selected_twice"]++
+				}
+			}
+		}
 		if big {
 			// more than 50 entities behind one lookup: the single-entity lookups of services A and C are sent in batches
 			q = "query Op { movies { id " + []string{"rating", "score rating", "rating title", "echoArg(s: \"a\") rating"}[r.Intn(4)] + " } }"
@@ -286,6 +301,32 @@ func runProfile(cfg runCfg, prof string) error {
 		}
 		w.add(name, emitE2ECase(env, run, opts))
 		sum.CaseInputs[name] = in
+		if prof == "c15" && len(faults) == 0 {
+			// the same document once more on the same gateway with other condition values: what is included is decided per
+			// request, nothing may be remembered from the first run
+			v2 := map[string]interface{}{}
+			flipped := false
+			for k, v := range vars {
+				v2[k] = v
+				if b, ok := v.(bool); ok && r.Intn(2) == 0 {
+					v2[k], flipped = !b, true
+				}
+			}
+			if flipped {
+				if run2, err := env.run(q, v2, hdr); err == nil && len(run2.Resp.Body) < 60000 {
+					n2 := name + "-again"
+					w.add(n2, emitE2ECase(env, run2, opts))
+					in2 := map[string]interface{}{}
+					for k, v := range in {
+						in2[k] = v
+					}
+					in2["variables"], in2["history"] = v2, "sent right after "+name+" (same document, other variable values) to the same gateway"
+					in2["gateway_data"], in2["gateway_errors"] = fmt.Sprint(run2.Resp.Data), errorSummary(run2.Resp.Errors)
+					sum.CaseInputs[n2] = in2
+					sum.Features["same_document_other_conditions"]++
+				}
+			}
+		}
 		if len(sum.Samples) < 4 {
 			sum.Samples = append(sum.Samples, in)
 		}
@@ -329,33 +370,56 @@ func mutationOracle(env *e2eEnv, run *e2eRun, name string, faulty bool) []oracle
 	var cs []*collected
 	x.collect("Mutation", run.Op.SelectionSet, map[string]bool{}, &cs)
 	expected := map[string][]string{}
-	seenKey := map[string]bool{} // fields with the same response key on the same object are one field (CollectFields)
-	var walk func(prefix, parent string, ss ast.SelectionSet)
-	walk = func(prefix, parent string, ss ast.SelectionSet) {
+	// CollectFields: the selections of one response key are ONE field (executed at the position of its first occurrence);
+	// for a namespace the sub-selections of all its occurrences are merged
+	var flatten func(ss ast.SelectionSet, out *[]*ast.Field)
+	flatten = func(ss ast.SelectionSet, out *[]*ast.Field) {
 		for _, s := range ss {
 			switch s := s.(type) {
 			case *ast.Field:
-				if s.Name == "__typename" {
-					continue
-				}
-				owner := env.fed.Owner[parent+"."+s.Name]
-				if owner != "" {
-					if seenKey[prefix+"/"+s.Alias] {
-						continue
-					}
-					seenKey[prefix+"/"+s.Alias] = true
-					expected[owner] = append(expected[owner], s.Name+canonArgs(s.ArgumentMap(x.vars)))
-				} else if env.fed.Namespace[s.Definition.Type.Name()] {
-					walk(prefix+"/"+s.Alias, s.Definition.Type.Name(), s.SelectionSet)
-				}
+				*out = append(*out, s)
 			case *ast.InlineFragment:
-				walk(prefix, parent, s.SelectionSet)
+				flatten(s.SelectionSet, out)
 			case *ast.FragmentSpread:
-				walk(prefix, parent, s.Definition.SelectionSet)
+				flatten(s.Definition.SelectionSet, out)
 			}
 		}
 	}
-	walk("", "Mutation", run.Op.SelectionSet)
+	// a namespace selected several times under one key: what "the client's order" is between its mutations and the other root
+	// fields is not fixed by the property (root fields are the namespace itself); then only "each exactly once" is judged
+	nsTwice := false
+	var walk func(parent string, ss ast.SelectionSet)
+	walk = func(parent string, ss ast.SelectionSet) {
+		var fields []*ast.Field
+		flatten(ss, &fields)
+		var keys []string
+		groups := map[string][]*ast.Field{}
+		for _, f := range fields {
+			if _, ok := groups[f.Alias]; !ok {
+				keys = append(keys, f.Alias)
+			}
+			groups[f.Alias] = append(groups[f.Alias], f)
+		}
+		for _, k := range keys {
+			f := groups[k][0]
+			if f.Name == "__typename" {
+				continue
+			}
+			if owner := env.fed.Owner[parent+"."+f.Name]; owner != "" {
+				expected[owner] = append(expected[owner], f.Name+canonArgs(f.ArgumentMap(x.vars)))
+			} else if env.fed.Namespace[f.Definition.Type.Name()] {
+				var merged ast.SelectionSet
+				for _, g := range groups[k] {
+					merged = append(merged, g.SelectionSet...)
+				}
+				if len(groups[k]) > 1 {
+					nsTwice = true
+				}
+				walk(f.Definition.Type.Name(), merged)
+			}
+		}
+	}
+	walk("Mutation", run.Op.SelectionSet)
 	got := map[string][]string{}
 	okKinds, okOwner := true, true
 	mutReqs := map[string]int{}
@@ -381,6 +445,9 @@ func mutationOracle(env *e2eEnv, run *e2eRun, name string, faulty bool) []oracle
 			continue // the mutation request failed before being applied, or was never sent because of a hard error
 		}
 		// namespaced mutation fields are recorded by the simulator on the namespace object; compare root-level ones
+		if nsTwice {
+			g, exp = sortedStrings(g), sortedStrings(exp)
+		}
 		if strings.Join(g, ";") != strings.Join(exp, ";") {
 			exact = false
 			detail = fmt.Sprintf("service %s: expected effects %v, got %v", svc, exp, g)
